@@ -3,6 +3,7 @@
 package wire
 
 import (
+	"runtime/debug"
 	"fmt"
 	"os"
 	"testing"
@@ -29,6 +30,9 @@ func TestVerifReplay(t *testing.T) {
 				fmt.Printf("REPLAY-RESULT: assert-failed %s :: %s\n", p.Class, p.Msg)
 			default:
 				fmt.Printf("REPLAY-RESULT: panic %v\n", r)
+				if os.Getenv("VERIF_STACK") != "" {
+					fmt.Printf("%s\n", debug.Stack())
+				}
 			}
 		}()
 		f()
